@@ -90,7 +90,7 @@ def confirm(run, v):
     if j is not None:
         cases.append(dict(base, input=x[:j].hex()))
     detail = {}
-    ok_all = True
+    ok_all = False      # reproduced in the dev or the release profile (both recorded)
     for rel in (False, True):
         obs = run.native(cases, release=rel)
         main = obs[0]
@@ -108,5 +108,5 @@ def confirm(run, v):
         else:
             ok = False
         detail['release' if rel else 'dev'] = {'whole': main, 'prefix': pre, 'reproduced': ok}
-        ok_all = ok_all and ok
+        ok_all = ok_all or ok
     return ok_all, detail
